@@ -172,6 +172,14 @@ def generate(rng, tier, weights=None, max_ops=None, hostile=0.2):
     # nested histories: created on sub-directories before/after the outer root
     if rng.random() < weights.get("nested", 0.45):
         state["nested"] = scen.subroots_of(tree, rng, 3)
+        if rng.random() < 0.2:
+            # sibling histories whose folders share a base name (P1/Clips, P2/Clips): same manifest names in one run
+            for parent in ("P1", "P2"):
+                tree.setdefault(parent, {"t": "d"})
+                tree.setdefault(parent + "/Clips", {"t": "d"})
+                tree.setdefault(parent + "/Clips/c.mov", {"t": "f", "c": gen.unique_content(rng)})
+            state["tree"] = dict(tree)
+            state["nested"] = sorted(set(state["nested"]) | {"P1/Clips", "P2/Clips"})
     pending = list(state["nested"])
     rng.shuffle(pending)
     n_ops = max_ops or rng.randint(3, 9 if tier == "quick" else 12)
@@ -200,6 +208,10 @@ def generate(rng, tier, weights=None, max_ops=None, hostile=0.2):
             if rng.random() < 0.3:
                 fl += _creator_args(rng)
             ops.append(scen.cmd(*fl))
+    if rng.random() < weights.get("session", 0.15):
+        # library-client use: all commands of the run execute in ONE long-lived simulated process, so module-level
+        # state of the code under test survives from one command to the next (as in the project's own pytest runs)
+        env["process_model"] = "session"
     return {"world": env, "ops": ops}
 
 
@@ -287,7 +299,7 @@ def shrink_candidates(sc):
         c["world"]["tree"] = tree
         yield c
     for key, val in (("tz", "UTC0"), ("enum_profile", "sorted"), ("read_profile", "full"), ("clock_profile", "calm"),
-                     ("wbuf", 8192), ("rootname", "root")):
+                     ("wbuf", 8192), ("rootname", "root"), ("process_model", "fork")):
         if sc["world"].get(key) != val:
             c = dict(sc)
             c["world"] = dict(sc["world"])
